@@ -234,8 +234,12 @@ Definition track_ids (f : frame) : Prop :=
 Lemma st_wf_init : st_wf r2t_init.
 Proof. repeat split; try constructor. Qed.
 
-Lemma rebase_le b d : snd (rebase b d) <= d.
-Proof. unfold rebase. destruct (b =? max_u64); cbn [snd]; destruct (d <? _); lia. Qed.
+Lemma rebase_le b d : d < two64 -> snd (rebase b d) < two64.
+Proof.
+  unfold rebase, rebase_dts, two64, ts_clock. intros H.
+  destruct (b =? max_u64); cbn [snd]; destruct (d <? _); try lia;
+    (eapply N.lt_trans; [apply N.mod_lt; discriminate|reflexivity]).
+Qed.
 
 Lemma u64_lt x : u64 x < two64.
 Proof. unfold u64, two64. apply N.mod_lt. discriminate. Qed.
@@ -253,12 +257,12 @@ Proof.
   { revert Et. unfold tsfilter_do.
     destruct (f_sid f =? sid_audio).
     - destruct (rebase (tf_abase (r_tsf s)) (f_dts f)) as [b d] eqn:Er. intros H. injection H as _ <- <-.
-      pose proof (rebase_le (tf_abase (r_tsf s)) (f_dts f)) as Hl. rewrite Er in Hl. cbn [snd] in Hl.
-      split; [lia|apply u64_lt].
+      pose proof (rebase_le (tf_abase (r_tsf s)) (f_dts f) Hd) as Hl. rewrite Er in Hl. cbn [snd] in Hl.
+      split; [exact Hl|apply u64_lt].
     - destruct (f_sid f =? sid_video).
       + destruct (rebase (tf_vbase (r_tsf s)) (f_dts f)) as [b d] eqn:Er. intros H. injection H as _ <- <-.
-        pose proof (rebase_le (tf_vbase (r_tsf s)) (f_dts f)) as Hl. rewrite Er in Hl. cbn [snd] in Hl.
-        split; [lia|apply u64_lt].
+        pose proof (rebase_le (tf_vbase (r_tsf s)) (f_dts f) Hd) as Hl. rewrite Er in Hl. cbn [snd] in Hl.
+        split; [exact Hl|apply u64_lt].
       + intros H. injection H as _ <- <-. now split. }
   split; [repeat split; assumption|]. split; [|repeat split].
   unfold ev_wf, frame_wf_nocc. cbn [te_frame with_times f_pts f_dts f_pid f_sid f_raw].
